@@ -168,4 +168,25 @@ Proof.
   - intros [E1 E2]. split; [exact E1|]. unfold j0. rewrite E2. reflexivity.
 Qed.
 
+(* slicemultiply keeps the array well-formed, so the per-axis theorem can be chained over the dimensions *)
+Lemma valid_unrot (rs tail : list N) dim (c x : N) : (dim < length rs)%nat -> valid_idx (rot dim rs) tail -> (c < x)%N ->
+  valid_idx (set_nth dim x rs) (unrot dim (length rs) c tail).
+Proof.
+  intros Hd Hv Hc. destruct (split_at 0%N dim rs Hd) as [P [Q [E [L1 L2]]]]. rewrite L2. rewrite E in Hv |- *.
+  rewrite (rot_mid dim P Q _ L1) in Hv. rewrite (set_nth_mid dim P Q _ x L1).
+  unfold valid_idx in Hv. apply Forall2_app_inv_r in Hv. destruct Hv as [tq [tp [Hq [Hp ->]]]].
+  assert (Ltp : length tp = dim) by (rewrite (valid_idx_length _ _ Hp); exact L1).
+  assert (Ltq : length tq = length Q) by (apply (valid_idx_length _ _ Hq)).
+  rewrite <- Ltq. rewrite (unrot_mid dim tp tq c Ltp). unfold valid_idx. apply Forall2_app; [exact Hp|]. constructor; [exact Hc | exact Hq].
+Qed.
+Lemma slicemultiply_ranges (a : @ndarr A) b ncolb dim :
+  nd_ranges (slicemultiply a b ncolb dim) = set_nth dim (N.of_nat ncolb) (nd_ranges a).
+Proof. reflexivity. Qed.
+Lemma slicemultiply_valid (a : @ndarr A) b ncolb dim : (dim < length (nd_ranges a))%nat -> valid_arr (slicemultiply a b ncolb dim).
+Proof.
+  intro Hd. unfold valid_arr. rewrite slicemultiply_ranges. unfold slicemultiply. cbn [nd_entries]. rewrite Forall_forall.
+  intros e He. apply in_flat_map in He. destruct He as [j [Hj He]]. apply in_map_iff in He. destruct He as [c [<- Hc]].
+  cbn [fst]. apply in_Nseq in Hj. apply in_seq in Hc. apply valid_unrot; [exact Hd | apply unflat_valid; exact Hj | lia].
+Qed.
+
 End Glam.
